@@ -6,7 +6,7 @@
    The per-protocol send->receive round trips are theorems about the packet models of Model.v
    (sender's datagram = what the node passes to sendto; receiver = node with one registered handler). *)
 From OlaBase Require Import Bytes.
-From C07 Require Import Gen Model ModelNet2 ModelStream ModelMulti ModelHist ModelExt ModelMerge ModelSrc ModelEsp ListLemmas RleProofs RleMore NetProofs NetProofs2 StreamProofs MultiProofs HistProofs ExtProofs StreamProofs2 ExtProofs2 MergeProofs SrcProofs EspProofs.
+From C07 Require Import Gen Model ModelNet2 ModelStream ModelMulti ModelHist ModelExt ModelMerge ModelSrc ModelEsp ListLemmas RleProofs RleMore NetProofs NetProofs2 StreamProofs MultiProofs HistProofs ExtProofs StreamProofs2 ExtProofs2 MergeProofs SrcProofs EspProofs OffsetProofs.
 Local Open Scope N_scope.
 
 (* the constants the statements below spell out as literals *)
@@ -390,6 +390,21 @@ Theorem c07_consts3 : (ES_RLE_ESCAPE, ES_RLE_REPEAT, ES_DATA_RLE, AN_MERGE_TIMEO
                        E131_MAX_MERGE_SOURCES) = (253, 254, 4, 10, 2, 6).
 Proof. reflexivity. Qed.
 Print Assumptions c07_consts3.
+
+(* ===== wave 8 ===== *)
+(* E1.31 SendDMXWithSequenceOffset (tx_send_offset: the packet carries sequence + offset, the stream's
+   own sequence advances only for offset 0): a send with a non-zero offset leaves the stream's next
+   sequence number as it was, and a frame sent 1..20 behind the stream is ignored by a receiver that
+   follows the stream without changing its tracking state - so, by c07_e131_sender_script, every
+   regular frame sent afterwards is still delivered. *)
+Theorem c07_e131_offset_send : forall rev2 cid name prio u off s k f st sb,
+  (off mod 256 <> 0 -> snd (tx_send_offset rev2 cid name prio u off (Some s) f) = Some s) /\
+  (s < 256 -> 1 <= k -> k <= 20 -> rx_src st = Some (u8 (s + 255), sb) ->
+   track_tail prio (u8 (s + (256 - k))) false f st = Some (st, false)).
+Proof.
+  intros. split; [apply offset_keeps_sequence|apply negative_offset_ignored].
+Qed.
+Print Assumptions c07_e131_offset_send.
 
 (* ---- non-vacuity and the pre-fix failures as concrete evaluations of the (fixed) model *)
 Definition ramp (n : nat) : list N := map (fun i => N.of_nat ((i * 7 + 3) mod 256)) (seq 0 n).
